@@ -33,7 +33,8 @@ RULE = (
     "byte order, shape, values (1-D arrays of <=10 items -> equal list); TSV floats within "
     "0.5e-4 and typed float. Non-trivial: an ndarray that is not C-contiguous or not small-1-D, "
     "or int and str keys together, or a cell containing a delimiter/quote/newline, or a nested "
-    "container in a parameter file.")
+    "container in a parameter file."
+    ' Later additions: number-like string keys, NumPy integer keys, an ASCII-locale sub-process.')
 ASSUMPTIONS = ['Python json/csv modules', 'file text restricted to ASCII for TSV/params '
                '(locale-independent); JSON uses ensure_ascii so full Unicode is generated']
 
